@@ -73,6 +73,7 @@ type State struct {
 	locks   map[string]int // ptrKey -> 0 free,1 locked (by us), for sync.Mutex tracking
 	once    map[string]bool
 	ghost   map[string]Value
+	pendingGo []pendingGo
 	steps   int
 	id      int
 	depth   int // number of forks on this path
